@@ -3,6 +3,7 @@ package queue
 import (
 	"fmt"
 	"io"
+	"time"
 
 	"github.com/emersion/go-message/textproto"
 	"github.com/foxcpp/maddy/framework/buffer"
@@ -60,6 +61,11 @@ func c01Queue(dir string, tgt, bounce module.DeliveryTarget, maxTries int, w *c0
 
 // scheduled = entries handed to the wheel and not lost: still waiting or already dispatched.
 func c01Scheduled(q *Queue, w *c01Wheel) int {
+	if !verifSymbolic() {
+		// natively the wheel's own goroutine may be between taking an entry off
+		// the list and handing it to the dispatch callback: let it finish
+		time.Sleep(50 * time.Millisecond)
+	}
 	q.wheel.slotsLock.Lock()
 	n := q.wheel.slots.Len()
 	q.wheel.slotsLock.Unlock()
